@@ -1,4 +1,224 @@
+//! C10 — colour operators obey their algebra and all their variants agree.
+//! Per colour type (explicit operator-trait lists, types.rs) x in-range colour lattice x factor
+//! lattice x partner colours x f32/f64: mix / lighten / darken / saturate / desaturate algebra
+//! (numeric, a few ulps of the component scale) and, bitwise, the assigning, slice, Alpha and
+//! PreAlpha forms of every operator against the by-value form on the bare colour.
+#[macro_use]
+mod ops;
+mod chk;
+mod chk2;
+mod lat;
+mod sat;
+mod types;
+
+use chk::*;
+use chk2::*;
+use ops::*;
+use pv::fl::Fl;
+use pv::{json, Collector, Ctx, Mode, Tier, Value};
+
+const SUBS: [&str; 7] = ["mix", "lighten", "saturate", "hue", "schemes", "arith", "clamp"];
+
+fn tier_of(s: &str) -> Tier {
+    if s == "thorough" {
+        Tier::Thorough
+    } else {
+        Tier::Quick
+    }
+}
+
+fn run_float<T: Ar>(ctx: &Ctx, specs: &[Spec<T>], total: &mut Collector) {
+    let tier = ctx.tier;
+    let want: Vec<bool> = SUBS.iter().map(|s| ctx.wants(&format!("{}/{}", s, T::NAME))).collect();
+    let want_slices = ctx.wants(&format!("slices/{}", T::NAME));
+    let fs = lat::factors::<T>(tier);
+    let hs = lat::hue_amounts::<T>(tier);
+    let als = lat::alphas::<T>();
+    let apairs = lat::alpha_pairs::<T>();
+    let cols: Vec<Vec<V<T>>> = specs.iter().map(|s| lat::colours(s, tier)).collect();
+    let parts: Vec<Vec<V<T>>> = specs.iter().map(|s| lat::partners(s, tier)).collect();
+    // work items: (type, block of colours); one extra item per type for the slice forms
+    const BLOCK: usize = 24;
+    let mut items: Vec<(usize, usize, usize)> = vec![];
+    for (i, c) in cols.iter().enumerate() {
+        let mut k = 0;
+        while k < c.len() {
+            items.push((i, k, (k + BLOCK).min(c.len())));
+            k += BLOCK;
+        }
+        items.push((i, usize::MAX, 0));
+    }
+    let (items, cols, parts, fs, hs, als, apairs, want) = (&items, &cols, &parts, &fs, &hs, &als, &apairs, &want);
+    let cc = pv::par::run_chunks(items.len(), |ci, c| {
+        let (ti, lo, hi) = items[ci];
+        let sp = &specs[ti];
+        if lo == usize::MAX {
+            if want_slices {
+                let mut cnt = Cnt::default();
+                check_slices(sp, &cols[ti], fs, hs, als, tier.name(), None, c, &mut cnt);
+                cnt.flush(c, &format!("slices/{}", T::NAME));
+            }
+            return;
+        }
+        let mut cn: Vec<Cnt> = (0..SUBS.len()).map(|_| Cnt::default()).collect();
+        for a in &cols[ti][lo..hi] {
+            if want[0] && sp.mix.is_some() {
+                for b in &parts[ti] {
+                    check_mix(sp, a, b, fs, apairs, c, &mut cn[0]);
+                }
+                for b in lat::opposite_partners(sp, a, &parts[ti][parts[ti].len() / 2]) {
+                    check_mix(sp, a, &b, fs, apairs, c, &mut cn[0]);
+                }
+            }
+            if want[1] {
+                check_inc(sp, "lighten", a, fs, als, c, &mut cn[1]);
+            }
+            if want[2] {
+                check_inc(sp, "saturate", a, fs, als, c, &mut cn[2]);
+            }
+            if want[3] {
+                check_hue(sp, a, hs, als, c, &mut cn[3]);
+            }
+            if want[4] {
+                check_schemes(sp, a, als, c, &mut cn[4]);
+            }
+            if want[5] {
+                for b in &parts[ti] {
+                    check_arith_cc(sp, a, b, apairs, c, &mut cn[5]);
+                }
+                check_arith_cs(sp, a, fs, als, c, &mut cn[5]);
+            }
+            if want[6] {
+                check_clamp(sp, a, c, &mut cn[6]);
+                for b in &parts[ti] {
+                    for x in clamp_inputs(sp, a, b) {
+                        check_clamp(sp, &x, c, &mut cn[6]);
+                    }
+                }
+            }
+        }
+        // a sample of what was explored
+        let a = &cols[ti][lo];
+        let b = &parts[ti][ci % parts[ti].len()];
+        let f = fs[ci % fs.len()];
+        c.sample(pv::splitmix(ci as u64 ^ (T::EPS.to_bits())), || {
+            json!({"type": sp.name, "float": T::NAME, "a": fv(a), "b": fv(b), "f": f.to64(),
+                "mix(a,b,f)": sp.mix.as_ref().map(|m| fv(&(m.mix)(a, b, f))),
+                "lighten(a,f)": sp.lighten.as_ref().map(|m| fv(&(m.plain[0])(a, f))),
+                "lighten_fixed(a,f)": sp.lighten.as_ref().map(|m| fv(&(m.plain[1])(a, f))),
+                "saturate(a,f)": sp.saturate.as_ref().map(|m| fv(&(m.plain[0])(a, f))),
+                "a+b": sp.arith.first().map(|m| fv(&(m.cc)(a, b)))})
+        });
+        for (k, cnt) in cn.into_iter().enumerate() {
+            if cnt.st > 0 {
+                cnt.flush(c, &format!("{}/{}", SUBS[k], T::NAME));
+            }
+        }
+    });
+    total.merge(cc);
+    let ncol: usize = cols.iter().map(|c| c.len()).sum();
+    let (cmin, cmax) = (cols.iter().map(|c| c.len()).min().unwrap_or(0), cols.iter().map(|c| c.len()).max().unwrap_or(0));
+    let pmax = parts.iter().map(|c| c.len()).max().unwrap_or(0);
+    let count = |f: &dyn Fn(&Spec<T>) -> bool| specs.iter().filter(|s| f(s)).count();
+    let lattice = format!("in-range colour lattice per type (product of per-component lattices {{min, min+ulp, quartiles, 0, max-ulp, max}}{}, hues at sector edges ±ulp, 0/360/-360/720/±180, HWB filtered by w+b<=1): {}..{} colours per type, {} in total", if tier == Tier::Thorough { " refined to eighths and 1e-9 offsets, hues every 15 degrees and k*30 ± ulp in [-360, 720]" } else { "" }, cmin, cmax, ncol);
+    let bounds: [(usize, String); 7] = [
+        (count(&|s| s.mix.is_some()), format!("x up to {} partner colours (+4 with the exactly opposite hue ± ulp) x {} factors x 3 alpha pairs; forms: mix, mix_assign, Alpha::mix(_assign), PreAlpha::mix(_assign)", pmax, fs.len())),
+        (count(&|s| s.lighten.is_some()), format!("x {} factors x 3 alphas; forms: lighten, lighten_fixed, darken, darken_fixed, their _assign forms, on Alpha", fs.len())),
+        (count(&|s| s.saturate.is_some()), format!("x {} factors x 3 alphas; forms: saturate, saturate_fixed, desaturate, desaturate_fixed, their _assign forms, on Alpha", fs.len())),
+        (count(&|s| s.hue.is_some()), format!("x {} hue amounts x 3 alphas; forms: shift_hue(_assign), with_hue/set_hue, on Alpha", hs.len())),
+        (count(&|s| s.schemes.is_some()), "x 3 alphas; complementary, split_complementary, analogous(_secondary), triadic, tetradic (Lab-like types: complementary, tetradic), bare and Alpha".to_string()),
+        (count(&|s| !s.arith.is_empty()), format!("x (up to {} partner colours x 3 alpha pairs + {} scalars x 3 alphas); Add/Sub (all types), Mul/Div (types that implement them), op-assign, Alpha, PreAlpha", pmax, fs.len())),
+        (count(&|s| s.clamp.is_some()), "each colour, its sum and difference with every partner colour (out of range), x 3 alphas; clamp, clamp_assign, on Alpha".to_string()),
+    ];
+    for (k, (nt, b)) in bounds.iter().enumerate() {
+        if want[k] {
+            total.exhaustive(&format!("{}/{}", SUBS[k], T::NAME), true, &format!("{} colour types; {} {}", nt, lattice, b));
+        }
+    }
+    if want_slices {
+        total.exhaustive(&format!("slices/{}", T::NAME), true, &format!("{} colour types; slices of length 0, 1, 2, 3 and the whole colour lattice of the type ({}..{} colours), bare and Alpha elements, x every slice operator ([C]::lighten/darken/saturate/desaturate (_fixed)_assign x {} factors, shift_hue_assign/set_hue x {} amounts, clamp_assign)", specs.len(), cmin, cmax, fs.len(), hs.len()));
+    }
+}
+
+fn replay(c: &mut Collector, rep: &Value) {
+    let case = &rep["case"];
+    if case["k"] == "sat" {
+        sat::replay_sat(c, case);
+        return;
+    }
+    fn go<T: Ar>(specs: Vec<Spec<T>>, case: &Value, c: &mut Collector) {
+        let name = case["type"].as_str().unwrap_or("");
+        let sp = specs.iter().find(|s| s.name == name).unwrap_or_else(|| {
+            eprintln!("unknown type {name}");
+            std::process::exit(3)
+        });
+        let mut cnt = Cnt::default();
+        let a: V<T> = unhex(&case["a"]);
+        let b: V<T> = unhex(&case["b"]);
+        let f: T = unhex1(&case["f"]);
+        // the alpha carried by the recorded input (slot 3) is replayed as the only alpha
+        let als = vec![a[3]];
+        let apairs = vec![(a[3], b[3])];
+        match case["k"].as_str().unwrap_or("") {
+            "mix" => check_mix(sp, &a, &b, &[f], &apairs, c, &mut cnt),
+            "inc" => {
+                let fs: Vec<T> = case["factors"].as_array().map(|v| v.iter().map(|x| unhex1::<T>(x)).collect()).unwrap_or_else(|| vec![f]);
+                check_inc(sp, case["which"].as_str().unwrap_or("lighten"), &a, &fs, &als, c, &mut cnt)
+            }
+            "hue" => check_hue(sp, &a, &[f], &als, c, &mut cnt),
+            "schemes" => check_schemes(sp, &a, &als, c, &mut cnt),
+            "arith-cc" => check_arith_cc(sp, &a, &b, &apairs, c, &mut cnt),
+            "arith-cs" => check_arith_cs(sp, &a, &[f], &als, c, &mut cnt),
+            "clamp" => check_clamp(sp, &a, c, &mut cnt),
+            "slice" => {
+                let tier = tier_of(case["tier"].as_str().unwrap_or("quick"));
+                let cols = lat::colours(sp, tier);
+                let fam = case["family"].as_str().unwrap_or("").to_string();
+                let only = (fam.as_str(), case["form_index"].as_u64().unwrap_or(0) as usize, if case["f"].is_null() { 0 } else { f.bits64() }, case["len"].as_u64().unwrap_or(0) as usize);
+                check_slices(sp, &cols, &[f], &[f], &lat::alphas::<T>(), tier.name(), Some(only), c, &mut cnt)
+            }
+            k => {
+                eprintln!("unknown case kind {k}");
+                std::process::exit(3)
+            }
+        }
+        println!("replayed {} {} on {}<{}>: {} subject calls, {} relations evaluated", case["k"], case["form"], name, T::NAME, cnt.tr, cnt.tv);
+    }
+    if case["float"] == "f64" {
+        go::<f64>(types::specs_f64(), case, c)
+    } else {
+        go::<f32>(types::specs_f32(), case, c)
+    }
+}
+
 fn main() {
-    eprintln!("C10: check not built yet");
-    std::process::exit(3);
+    pv::main_guard(real_main)
+}
+
+fn real_main() -> i32 {
+    let (ctx, mode) = Ctx::from_args("C10");
+    if let Mode::Replay(rep) = mode {
+        let mut c = Collector::new();
+        replay(&mut c, &rep);
+        return ctx.finish_replay(c);
+    }
+    let mut total = Collector::new();
+    run_float::<f32>(&ctx, &types::specs_f32(), &mut total);
+    run_float::<f64>(&ctx, &types::specs_f64(), &mut total);
+    if ctx.wants("saturating/u8") {
+        sat::run_sat(&mut total, ctx.tier == Tier::Thorough);
+    }
+    total.note("tolerances", json!({"KTOL_ulps_of_component_scale": KTOL, "KPOLAR_ulps_polar_route": KPOLAR, "rule": "numeric relations: |error| <= KTOL * epsilon(T) * max(component range, |inputs|); variants: bitwise (NaN == NaN)"}));
+    ctx.finish(
+        total,
+        "model_checking",
+        "states = (colour type, operator family, input colour[, partner colour], factor) tuples of the stated lattice products, each visited once; transitions = operator calls on the real palette types (by value, assigning, slice, Alpha, PreAlpha forms); traces = relations evaluated (algebra against the numeric model of the statement, every variant against the by-value form on the bare colour); non-trivial = states whose by-value result differs bitwise from the first input colour",
+        &[
+            "in-range means within the type's own min_*/max_* accessors (practical envelopes for unbounded components: Oklab a/b in [-0.5, 0.5], Oklch chroma <= 0.5, LMS <= 1, CAM16 J <= 100, Q <= 200, C <= 120, M/s <= 100); HWB additionally whiteness + blackness <= 1",
+            "algebra clauses for lighten/darken/saturate/desaturate are evaluated for amounts in [0, 1] only, as stated; for other amounts only the variants and the negated-amount identity are compared",
+            "colour-scheme helpers are compared with shift_hue by the angles of their doc comments with the hue taken on the circle (analogous is documented as hue-30 and implemented as hue+330)",
+            "the alpha channel of Alpha/PreAlpha::mix is a.alpha + clamp(f)*(b.alpha - a.alpha) (alpha.rs, pre_alpha.rs), of arithmetic the same operator applied to the alphas, of clamp the alpha clamped to [0, 1], unchanged otherwise",
+            "SaturatingAdd/SaturatingSub exist for unsigned integer components only (num.rs impl_uint!) and are exercised with u8",
+        ],
+    )
 }
